@@ -443,6 +443,24 @@ def randomizer(ctx) -> None:
         ok_r = isinstance(g.iter, ast.Call) and call_fname(g.iter) == "items" and attr_of_name(g.iter.func.value, selfn, "lookup") and isinstance(g.target, ast.Tuple) and len(g.target.elts) == 2 \
             and is_name(dc.key, g.target.elts[1].id) and is_name(dc.value, g.target.elts[0].id) and not g.ifs
         ok_r = ok_r and fv.cfg.dominates(rev[0].id, fv.cfg.exit) and not fv.controlling(rev[0].id, skip_raising=True)
+    if not ok_r and len(rev) == 1:
+        # the same table built by a loop (or through a temporary): {<value of the pair>: <key of the pair> for the pairs of self.lookup.items()}
+        t = fv.res.resolve(rev[0].ast.value, rev[0].id)
+        if is_sym(t, "comp") and len(t.args) == 4 and isinstance(t.args[0], ast.Constant) and t.args[0].value == "DictComp" and is_sym(t.args[3], "gen") and len(t.args[3].args) == 1:
+            k_, v_, it_ = t.args[1], t.args[2], t.args[3].args[0]
+            ok_r = is_sym(k_, "val") and is_sym(v_, "key") and key(k_.args[0]) == key(v_.args[0]) and attr_of_name(k_.args[1], selfn, "lookup") and attr_of_name(v_.args[1], selfn, "lookup") \
+                and isinstance(it_, ast.Call) and call_fname(it_) == "items" and attr_of_name(it_.func.value, selfn, "lookup")
+            ok_r = ok_r and fv.cfg.dominates(rev[0].id, fv.cfg.exit) and not fv.controlling(rev[0].id, skip_raising=True)
+            lid = k_.args[0].value if ok_r and isinstance(k_.args[0], ast.Constant) else ""
+            if ok_r and isinstance(lid, str) and lid.startswith("loop@"):
+                head = int(lid.split("@")[1])
+                after = fv.cfg.reachable_from(head)
+                for m in fv.cfg.nodes:
+                    if m.id in after and m.id not in fv.cfg.loop_body.get(head, set()) and m.kind == "stmt" and isinstance(m.ast, (ast.Assign, ast.AugAssign)):
+                        tg = m.ast.targets[0] if isinstance(m.ast, ast.Assign) else m.ast.target
+                        base_ = tg.value if isinstance(tg, ast.Subscript) else tg
+                        if attr_of_name(base_, selfn, "lookup"):
+                            ok_r = False  # the lookup is still written after the reverse table was derived from it
     ctx.rep.check(ok_r, rule, f"{f.qualname}/reverse", "lookup_reverse = {v: k for k, v in lookup.items()} for every mode", "lookup_reverse is not the exact inverse of lookup (built for every mode, after the lookup is complete)", where=f.where())
     for short, table in (("WellRandomizer.randomize_wells", "lookup"), ("WellRandomizer.derandomize_wells", "lookup_reverse")):
         g = ctx.prog.require_func(short, rule)
